@@ -5,13 +5,17 @@
 //   c_consts                          C240, R256/R512/R1024 == Table 4, P256/P512/P1024 == the inverse of pi (Table 3)
 //                                     (the real code scatters f_i to position P[i]; the paper gathers v_i = f_{pi(i)})
 //   l_ref_round_inverse_<n>           reference-level: inv_round(d, round(d, v)) == v and back, every subkey array, every d
-// Per type <p> in {t256, t512, t1024}, block functions with mix / inv_mix replaced by their contracts (c_mix, c_inv_mix):
+// Per type <p> in {t256, t512, t1024}: the rounds are decomposed over the contracts of mix / inv_mix.  In the block-function
+// obligations both the real `mix` / `inv_mix` and the reference's MIX are replaced by the lock-step transcript oracle
+// `mix_oracle!` below (soundness argument there), so that what the solver sees is the subkey injection, the selection of
+// the rotation constant (checked call by call: it is part of the transcript) and the word permutation:
 //   <p>_ks        new_with_tweak_u64 == key schedule 3.3.2, every key and tweak
 //   <p>_ks_bytes  new_with_tweak == new_with_tweak_u64 on little-endian words; KeyInit::new == zero tweak
-//   <p>_enc/_dec  encrypt_block_u64 / decrypt_block_u64 == Threefish for EVERY subkey array and block
+//   <p>_enc/_dec  encrypt_block_u64 / decrypt_block_u64 == Threefish for EVERY subkey array and block   (uses c_mix / c_inv_mix)
 //   <p>_bytes     encrypt_block / decrypt_block on bytes == the u64 entry points under little-endian encoding
 //   <p>_api       KeyInit::new / new_with_tweak + encrypt_block + decrypt_block == Threefish on bytes (zero / given tweak)
-//   <p>_rt1/_rt2  C01 on the real functions (no stubs)
+//   <p>_rt1/_rt2  C01 on the real block functions, every subkey array, both orders: the second operation's calls are
+//                 answered from the transcript of the first one read backwards (uses l_mix_inverse, both orders)
 //   <p>_keylen, <p>_same, <p>_weak, <p>_names, <p>_mb, z_<p>
 //
 // @module file=threefish/src/lib.rs
@@ -117,9 +121,7 @@ macro_rules! ref_round_inverse {
         }
     };
 }
-// reference-level round inverses: with <p>_enc / <p>_dec (real == reference for every subkey array) they give C01 for the
-// real block functions by induction over the rounds (the induction itself is not machine-checked here; <p>_rt1/2 are the
-// direct statements on the real code)
+// reference-level round inverses (kept for the record, unregistered: C01 is discharged on the real code by <p>_rt1/2)
 // (times out at 300 s with a symbolic round index: unregistered) @-ob name=l_ref_round_inverse_4 props=C01 kind=lemma fn=bcref::threefish::round,bcref::threefish::inv_round timeout=300
 ref_round_inverse!(l_ref_round_inverse_4, 4, 19);
 // (times out at 300 s with a symbolic round index: unregistered) @-ob name=l_ref_round_inverse_8 props=C01 kind=lemma fn=bcref::threefish::round,bcref::threefish::inv_round timeout=300
@@ -508,8 +510,8 @@ threefish_type!(Threefish512, nw=8, ns=19, uf=uf8, ox=ox8, name="Threefish512";
 // @ob name=t1024_dec props=C10,C20 kind=contract fn=threefish::Threefish1024::decrypt_block_u64 uses=c_inv_mix timeout=600
 // @ob name=t1024_bytes props=C10,C20 kind=contract fn=threefish::Threefish1024::encrypt_block,threefish::Threefish1024::decrypt_block uses=t1024_enc,t1024_dec timeout=300
 // @ob name=t1024_api props=C10,C20 kind=contract fn=threefish::Threefish1024::new,threefish::Threefish1024::new_with_tweak,threefish::Threefish1024::encrypt_block,threefish::Threefish1024::decrypt_block uses=c_mix,c_inv_mix timeout=900
-// @ob name=t1024_rt1 props=C01 kind=lemma fn=threefish::Threefish1024::encrypt_block_u64,threefish::Threefish1024::decrypt_block_u64 uses=l_mix_inverse timeout=600
-// @ob name=t1024_rt2 props=C01 kind=lemma fn=threefish::Threefish1024::encrypt_block_u64,threefish::Threefish1024::decrypt_block_u64 uses=l_mix_inverse timeout=600
+// @ob name=t1024_rt1 props=C01 kind=lemma tier=thorough fn=threefish::Threefish1024::encrypt_block_u64,threefish::Threefish1024::decrypt_block_u64 uses=l_mix_inverse timeout=2400
+// @ob name=t1024_rt2 props=C01 kind=lemma tier=thorough fn=threefish::Threefish1024::encrypt_block_u64,threefish::Threefish1024::decrypt_block_u64 uses=l_mix_inverse timeout=2400
 // @ob name=t1024_keylen props=C11 kind=bounded bound="slice length <= 300" fn=threefish::Threefish1024::new_from_slice timeout=300
 // @ob name=t1024_same props=C11,C12 kind=contract fn=threefish::Threefish1024::new_from_slice,threefish::Threefish1024::new,threefish::Threefish1024::clone timeout=300
 // @ob name=t1024_weak props=C13 kind=contract fn=threefish::Threefish1024::weak_key_test,threefish::Threefish1024::new_checked timeout=300
